@@ -3,6 +3,7 @@ package h
 import (
 	"bytes"
 	"fmt"
+	"runtime"
 	"time"
 
 	abci "github.com/tendermint/tendermint/abci/types"
@@ -20,6 +21,10 @@ type MonSnapshot struct {
 	p2dead    bool
 	rs        []*Node // restored followers
 	rsFrom    []int64
+
+	BackToBack bool       // the second producer executes a snapshot block and the next block without a pause
+	held       *heldBlock // block the second producer still has to execute
+	pendSnap   *pendSnap  // first producer's snapshot waiting for the second producer's
 }
 
 func (m *MonSnapshot) Name() string { return "C29" }
@@ -82,11 +87,30 @@ func (m *MonSnapshot) AfterBlock(s *Sim, req *BlockReq, res *BlockRes) {
 		}
 		m.Res.Count("restored_blocks_compared", 1)
 	}
-	if !m.p2dead {
-		r2 := m.p2.RunBlock(req, nil)
-		if d := CompareBlocks(res, r2); d != "" {
-			m.p2dead = true
-			m.rep(s, "producers-differ", siteClass(d), d)
+	if !m.p2dead && m.held == nil && m.BackToBack && h%m.Interval == 0 && !m.RebootP2[h] {
+		// the second producer executes this block and the next one back to back (as in a replay or fast sync): its snapshot
+		// goroutine of height h then competes with the commit of h+1 (lead: added after seed C29-m4; a harness that lets a
+		// producer idle after every snapshot height never sees that interleaving)
+		m.held = &heldBlock{req: req, res: res}
+	} else if !m.p2dead {
+		if hb := m.held; hb != nil {
+			m.held = nil
+			r2 := m.p2.RunBlock(hb.req, nil)
+			if d := CompareBlocks(hb.res, r2); d != "" {
+				m.p2dead = true
+				m.rep(s, "producers-differ", siteClass(d), d)
+			}
+		}
+		if !m.p2dead {
+			r2 := m.p2.RunBlock(req, nil)
+			if d := CompareBlocks(res, r2); d != "" {
+				m.p2dead = true
+				m.rep(s, "producers-differ", siteClass(d), d)
+			}
+		}
+		if p := m.pendSnap; p != nil && !m.p2dead {
+			m.pendSnap = nil
+			m.compareP2(s, p.h, p.s1, p.chunks, p.kind+"/back-to-back")
 		}
 	}
 	if h%m.Interval != 0 {
@@ -107,24 +131,11 @@ func (m *MonSnapshot) AfterBlock(s *Sim, req *BlockReq, res *BlockRes) {
 	for c := uint32(0); c < s1.Chunks; c++ {
 		chunks = append(chunks, s.N.App.LoadSnapshotChunk(abci.RequestLoadSnapshotChunk{Height: s1.Height, Format: s1.Format, Chunk: c}).Chunk)
 	}
-	if !m.p2dead {
-		s2 := waitSnap(m.p2, h)
-		switch {
-		case s2 == nil:
-			m.Res.Inconcl = append(m.Res.Inconcl, fmt.Sprintf("no snapshot listed on the second producer at height %d", h))
-		case !bytes.Equal(s1.Hash, s2.Hash) || s1.Chunks != s2.Chunks || s1.Format != s2.Format || !bytes.Equal(s1.Metadata, s2.Metadata):
-			m.rep(s, "snapshot-contents-differ", "metadata", fmt.Sprintf("height %d: hash %x vs %x, chunks %d vs %d", h, s1.Hash, s2.Hash, s1.Chunks, s2.Chunks))
-		default:
-			for c := uint32(0); c < s1.Chunks; c++ {
-				c2 := m.p2.App.LoadSnapshotChunk(abci.RequestLoadSnapshotChunk{Height: s2.Height, Format: s2.Format, Chunk: c}).Chunk
-				if !bytes.Equal(c2, chunks[c]) {
-					m.rep(s, "snapshot-contents-differ", "chunk", fmt.Sprintf("height %d chunk %d differs (%d vs %d bytes)", h, c, len(chunks[c]), len(c2)))
-					break
-				}
-			}
-			m.Res.Evaluations++
-			m.Res.Seen(fmt.Sprintf("snapshots compared/%s", blockKind(s, req, res)))
-		}
+	if m.held != nil {
+		// the second producer has not executed this block yet: its snapshot is compared after the next block
+		m.pendSnap = &pendSnap{h: h, s1: s1, chunks: chunks, kind: blockKind(s, req, res)}
+	} else if !m.p2dead {
+		m.compareP2(s, h, s1, chunks, blockKind(s, req, res))
 		if m.RebootP2[h] {
 			m.p2 = m.p2.RebootSame()
 			m.Res.Count("p2_restarts", 1)
@@ -199,6 +210,39 @@ func (m *MonSnapshot) AfterBlock(s *Sim, req *BlockReq, res *BlockRes) {
 	m.rsFrom = append(m.rsFrom, h)
 }
 
+type heldBlock struct {
+	req *BlockReq
+	res *BlockRes
+}
+
+type pendSnap struct {
+	h      int64
+	s1     *abci.Snapshot
+	chunks [][]byte
+	kind   string
+}
+
+// compareP2 compares the second producer's snapshot of height h with the first producer's.
+func (m *MonSnapshot) compareP2(s *Sim, h int64, s1 *abci.Snapshot, chunks [][]byte, kind string) {
+	s2 := waitSnap(m.p2, h)
+	switch {
+	case s2 == nil:
+		m.Res.Inconcl = append(m.Res.Inconcl, fmt.Sprintf("no snapshot listed on the second producer at height %d", h))
+	case !bytes.Equal(s1.Hash, s2.Hash) || s1.Chunks != s2.Chunks || s1.Format != s2.Format || !bytes.Equal(s1.Metadata, s2.Metadata):
+		m.rep(s, "snapshot-contents-differ", "metadata", fmt.Sprintf("height %d: hash %x vs %x, chunks %d vs %d", h, s1.Hash, s2.Hash, s1.Chunks, s2.Chunks))
+	default:
+		for c := uint32(0); c < s1.Chunks; c++ {
+			c2 := m.p2.App.LoadSnapshotChunk(abci.RequestLoadSnapshotChunk{Height: s2.Height, Format: s2.Format, Chunk: c}).Chunk
+			if !bytes.Equal(c2, chunks[c]) {
+				m.rep(s, "snapshot-contents-differ", "chunk", fmt.Sprintf("height %d chunk %d differs (%d vs %d bytes)", h, c, len(chunks[c]), len(c2)))
+				break
+			}
+		}
+		m.Res.Evaluations++
+		m.Res.Seen(fmt.Sprintf("snapshots compared/%s", kind))
+	}
+}
+
 func (m *MonSnapshot) Finish(s *Sim) {
 	for i, r := range m.rs {
 		if r == nil {
@@ -231,9 +275,9 @@ func (m *MonSnapshot) Finish(s *Sim) {
 func init() {
 	Register(&CheckDef{
 		ID: "C29", Level: "exploration",
-		Rule: "one case = one generated history with state-sync snapshots every 3-10 blocks on two producers (the second one restarted a few times); per snapshot height the metadata hash and every chunk must be byte-equal between the producers; at 2-3 snapshot heights (a payout height, a period start, a random one) a fresh node is restored through OfferSnapshot/ApplySnapshotChunk, must report the producer's (height, app hash), equal emission/versions/validators/price and export, and then executes all following blocks (payouts, price updates, pruning) with identical responses and app hashes and an equal final export; one evaluation = one snapshot pair compared, one restore compared or one follower compared at the end; distinct = (kind of comparison, kind of block)",
+		Rule:        "one case = one generated history with state-sync snapshots every 3-10 blocks on two producers (the second one restarted a few times); per snapshot height the metadata hash and every chunk must be byte-equal between the producers; at 2-3 snapshot heights (a payout height, a period start, a random one) a fresh node is restored through OfferSnapshot/ApplySnapshotChunk, must report the producer's (height, app hash), equal emission/versions/validators/price and export, and then executes all following blocks (payouts, price updates, pruning) with identical responses and app hashes and an equal final export; one evaluation = one snapshot pair compared, one restore compared or one follower compared at the end; distinct = (kind of comparison, kind of block)",
 		Assumptions: []string{"snapshot completion is awaited through the hook VerifWaitSnapshots; chunks are transferred unmodified"},
-		Quick: 30, Thorough: 300, MinEval: 150, MinDistinct: 6, MaxWorkers: 12,
+		Quick:       30, Thorough: 300, MinEval: 150, MinDistinct: 6, MaxWorkers: 12,
 		Run: func(ctx *WorkCtx, idx int) {
 			r := Rng(ctx.Seed, "C29", idx)
 			sc := StdScenario(idx, r, 90)
@@ -262,11 +306,34 @@ func init() {
 				}
 				ms.RestoreAt[snaps[0]] = true
 			}
+			grace := idx%9 == 4
+			if grace {
+				// restore inside the grace period of a voted update (H = first+128), then a validator crosses the absence limit
+				// (lead: added after seed C29-m3)
+				sc.Blocks = 185
+				ms.RestoreAt, ms.RebootP2 = map[int64]bool{}, map[int64]bool{}
+				for h := first + 129; h < first+129+2*iv; h++ {
+					if h%iv == 0 {
+						ms.RestoreAt[h] = true
+						break
+					}
+				}
+			}
+			if idx%2 == 1 {
+				// back-to-back execution on the second producer, on one processor (the snapshot goroutine then starts late)
+				ms.BackToBack = true
+				defer runtime.GOMAXPROCS(runtime.GOMAXPROCS(1))
+				ctx.Res.Seen("second producer executes snapshot block and next block back to back on one processor")
+			}
 			s, d := sc.Build("C29", ctx.Seed, idx, r, ms)
 			d.MaxTxs = 6
 			d.PTimeJump = 0.06
 			d.G.SetWeight(TxT(0x21), 2)
-			d.Run(sc.Blocks)
+			if grace {
+				graceHistory(ctx, s, d, first, sc.Blocks, first+129+2*iv+2, (idx/9)%3 == 2, r)
+			} else {
+				d.Run(sc.Blocks)
+			}
 			ctx.Res.Count("blocks", s.H-s.W.InitialHeight+1)
 			ctx.Collect(s, idx)
 			s.Finish()
